@@ -249,8 +249,8 @@ def replay(res, wd, cfg, nrels, drv, dot, max_walks=None):
     lines = []
     for init, w in walks:
         ops = ",".join(op_of(g.edges[i][2], g.edges[i][3]) for i in w)
-        lines.append("Q %d - %s" % (nrels, ops))        # state comparison after every call
-    for init, w in walks[:max(1, len(walks) // 2)]:
+        lines.append("Q %d x %s" % (nrels, ops))        # state comparison after every call
+    for init, w in walks[:max(1, (2 * len(walks)) // 5)]:
         ops = ",".join(op_of(g.edges[i][2], g.edges[i][3]) for i in w)
         lines.append("Q %d b %s" % (nrels, ops))        # the same history with the query battery after every updating call
     hists, crash = run_driver(drv, lines)
